@@ -349,8 +349,19 @@ func (l *BlockchainRpcTxWatcher) observationLoop(
 			}
 
 			// Check if we can find the tx
-			rawTx, firstSeen, err := l.observer.IsTxInMempoolOrRange(
+			rawTx, firstSeen, tip, err := l.observer.IsTxInMempoolOrRangeAt(
 				txId, startingHeight, vout)
+			if tip > current {
+				// The notification was older than the chain the observer
+				// looked at (notifications queue up behind slow queries).
+				// Everything below is judged at the height of the lookup.
+				current = tip
+				lastHeight = current
+				if current >= startingHeight+safetyLimit {
+					l.callbackAndLog(swapId, "", fmt.Errorf("exceeded csv limit"))
+					return
+				}
+			}
 			if errors.Is(err, ErrNotFound) {
 				// Tx was not found from the "Starting Blockheight" until now.
 				// Wait for the next block
